@@ -121,6 +121,147 @@ def run_C02(ctx):
 
 
 def run_C03(ctx):
-    viol = session_run(ctx)
+    if ctx.replay is not None and ctx.replay["engine"] == "client":
+        viol = client_run(ctx, want_mutations=True)
+    else:
+        # (a) real pair with scripted handler outcomes; (b) real Frontend against an independent peer that
+        # acknowledges / negatively acknowledges by the protocol's rules (acks awaited, nacks reported)
+        viol = session_run(ctx) + (client_run(ctx, want_mutations=True) if ctx.replay is None else [])
     return ctx.finish("model_checking", SESSION_RULE, ASSUME_COMMON + [
         "'indefinite wait' is observed by a 2 s watchdog while the server loop keeps serving (real round trips take microseconds)"], viol)
+
+
+# ---------------------------------------------------------------------------------------------
+# Client (real Frontend <-> independent raw peer): C01 (frontend bytes), C06, C07 (frontend), C02
+def group_client_cases(cases, tier):
+    by_prefix, out, seen = {}, [], set()
+    for c in cases:
+        steps = c["steps"]
+        prefix, last = steps[:-1], steps[-1]
+        if last.get("op") == "set_hdr_flags":
+            continue
+        nr = any(s.get("op") == "set_hdr_flags" and s.get("nr") for s in prefix)
+        if last["peer"] != "auto":
+            k = (last["op"], last["cls"], last["peer"], nr, c["await"])
+            if tier == "quick" and k in seen:
+                continue
+            if last["peer"] == "silent":
+                k2 = (last["op"], "silent")
+                if k2 in seen:
+                    continue
+                seen.add(k2)
+            seen.add(k)
+            out.append(dict(steps=steps, slow=True))
+        elif last["op"] in STATE_CHANGING_OPS:
+            out.append(dict(steps=steps))
+        else:
+            key = json.dumps(prefix, sort_keys=True)
+            by_prefix.setdefault(key, dict(steps=list(prefix)))["steps"].append(last)
+    out.extend(by_prefix.values())
+    return out
+
+
+def client_run(ctx, want_mutations=True):
+    cases = ctx.tlc_mc("MC_Client", "MC_Client_" + ctx.tier)
+    sess = group_client_cases(cases, ctx.tier)
+    if not want_mutations:
+        sess = [c for c in sess if not c.get("slow")]
+    sess = replay_or(ctx, "client", sess)
+    tr = ctx.harness("client", sess, shards=12)
+    viol = ctx.tlc_tv("TV_Client", tr, "client")
+    ctx.count_distinct(tr, lambda e: (e.get("op"), e.get("cls"), e.get("peer"), e.get("res"), e.get("nwire")),
+                       lambda e: e.get("ev") == "call" and (e["nwire"] > 0 or e["res"] != "ok"))
+    ctx.sample(tr, 2, skip=4)
+    return viol
+
+
+def server_run(ctx):
+    cfg = "MC_BackendServer_" + ctx.tier
+    cases = group_server_cases(ctx.tlc_mc("MC_BackendServer", cfg))
+    cases = replay_or(ctx, "server", cases)
+    tr = ctx.harness("server", cases, shards=4)
+    viol = ctx.tlc_tv("TV_BackendServer", tr, "server")
+    ctx.count_distinct(tr, lambda e: ("srv", e["c"], e["nr"], e["h"], e["ncalls"], e["nout"], e["res"]),
+                       lambda e: e["ncalls"] > 0 or e["nout"] > 0 or e["res"] != "ok")
+    ctx.sample(tr, 2, skip=5)
+    return viol
+
+
+def run_C07(ctx):
+    if ctx.replay is not None:
+        eng = ctx.replay["engine"]
+        viol = {"server": server_run, "client": lambda c: client_run(c, False)}.get(eng, server_run)(ctx)
+    else:
+        viol = server_run(ctx) + client_run(ctx, want_mutations=False)
+    ctx.exhaustive = True
+    return ctx.finish("model_checking",
+        "stimuli = every (negotiation state, request) transition of MC_BackendServer replayed by a raw peer on the real BackendReqHandler "
+        "(gated request without the acknowledged feature => no handler call; REPLY_ACK always offered) and every (negotiation state, call) "
+        "transition of MC_Client replayed on the real Frontend against an independent raw peer (gated call => error and zero bytes on the "
+        "wire); negotiation states: acknowledged-feature sets {}, all, all-minus-one, single bits (quick) / more subsets (thorough) x PF "
+        "offered/acked; non-trivial = handler called, bytes written or error returned",
+        ASSUME_COMMON + ["negotiation handlers succeed in these histories", "postcopy gating is compiled out of the default build and not exercised"],
+        viol)
+
+
+def run_C06(ctx):
+    viol = client_run(ctx, want_mutations=True)
+    return ctx.finish("exploration",
+        "for every (frontend negotiation state, reply- or ack-awaiting call) transition of MC_Client the raw peer answers with the correct "
+        "reply mutated in one class (code, REPLY flag, version, reserved bits, size, truncated body, +1/+2/-1 descriptors, invalid body, "
+        "nack, random bytes, silence) and closes; TLC judges the recorded call result (never success, never panic); quick samples each "
+        "(operation, mutation, NEED_REPLY) once, thorough from every state; distinct = (operation, class, peer behaviour, result, messages)",
+        ASSUME_COMMON + ["a reply whose header size field differs from the body size but is <= 4096 (classes size+1, size_field=0) and a reply "
+                         "carrying NEED_REPLY are recorded but not judged (DESIGN C06)"], viol)
+
+
+# ---------------------------------------------------------------------------------------------
+# C08: framing vs segmentation / truncation
+ALLGATES = [0, 1, 3, 5, 8, 9, 12, 13, 15, 18, 19, 21]
+SRV_PREFIX = [dict(c=1, nr=False, h="ok", v=[], var="valid"), dict(c=2, nr=False, h="ok", v=[30], var="valid"),
+              dict(c=16, nr=False, h="ok", v=ALLGATES, var="valid")]
+
+
+def channel_cases(ctx):
+    import subprocess, concurrent.futures
+    from vlib import VH, WORK
+    lens = json.loads(subprocess.run([VH, "lens"], stdout=subprocess.PIPE, text=True, check=True).stdout)
+    tla = open(os.path.join(ROOT, "spec", "mc", "MC_Channel.cfg")).read()
+    allc = []
+    def one(cl):
+        cfgname = f"MC_Channel_{cl['c']}"
+        path = os.path.join(ROOT, "spec", "mc", cfgname + ".cfg")
+        return cl, path
+    # one TLC run per message length/code (constants substituted into a scratch cfg under work/)
+    for cl in lens:
+        cfg = tla.replace("L = 20", f"L = {cl['len']}").replace("Code = 8", f"Code = {cl['c']}").replace('"quick"', f'"{ctx.tier}"')
+        d = os.path.join(ctx.dir, "cfg")
+        os.makedirs(d, exist_ok=True)
+        p = os.path.join(d, f"MC_Channel_{cl['c']}.cfg")
+        open(p, "w").write(cfg)
+    def run(cl):
+        return ctx.tlc_mc_path("MC_Channel", os.path.join(ctx.dir, "cfg", f"MC_Channel_{cl['c']}.cfg"), workers=1)
+    with concurrent.futures.ThreadPoolExecutor(max_workers=8) as ex:
+        for cs in ex.map(run, lens):
+            allc.extend(cs)
+    return allc
+
+
+def run_C08(ctx):
+    stim = channel_cases(ctx)
+    cases = []
+    for st in stim:
+        step = dict(c=st["c"], nr=False, h="ok", v=[], var="fixed", seg=st["seg"], cut=st["cut"])
+        cases.append(dict(dev=dict(vf=[30], pf=[]), steps=SRV_PREFIX + [step]))
+    cases = replay_or(ctx, "server", cases)
+    tr = ctx.harness("server", cases, shards=12)
+    viol = ctx.tlc_tv("TV_BackendServer", tr, "server")
+    ctx.count_distinct(tr, lambda e: (e["c"], tuple(e["seg"]), e["cut"]), lambda e: e.get("seg") or e.get("cut", -1) >= 0)
+    ctx.sample(tr, 3, skip=3)
+    return ctx.finish("fault_enumeration",
+        "Channel.tla is model-checked per message length (all segmentations / cut points of the state graph); stimuli = for every served "
+        "request type (deterministic body): every 2-split, 3-splits (all for messages <= 52 bytes, else on a 4-byte grid; all in thorough), "
+        "byte-by-byte delivery, and every cut offset 0..len-1 followed by EOF; each segment is really delivered separately (the peer waits "
+        "until the receiver drained the previous one); distinct = (request code, split points, cut offset)",
+        ASSUME_COMMON + ["unix stream sockets do not merge a segment the receiver has not been offered yet (the peer waits for FIONREAD==0 before writing the next segment)"],
+        viol)
